@@ -620,6 +620,61 @@ def check_ties(case):
     case["_n"] = n
 
 
+def atheris_cell(target, runs):
+    """Thorough tier: coverage-guided campaign (atheris/libFuzzer) over the same property, in a subprocess."""
+    import subprocess, tempfile, shutil, re as _re
+    from vlib.harness import VERIF
+
+    def check(case):
+        deps = os.path.join(VERIF, ".deps")
+        if not os.path.isdir(os.path.join(deps, "atheris")):
+            r = subprocess.run(["/venv/bin/pip", "install", "-q", "--no-index", "--find-links", "/opt/veriftools/wheels", "--target", deps,
+                                "atheris"], capture_output=True, text=True)
+            if r.returncode != 0:
+                require(False)  # atheris not installable here: campaign skipped (counted as discarded)
+        out = tempfile.mkdtemp(prefix="c19fz_")
+        try:
+            env = dict(os.environ, PYTHONHASHSEED="0")
+            r = subprocess.run(["/venv/bin/python", os.path.join(VERIF, "tools", "fuzz_c19.py"), target, "--runs", str(case["runs"]),
+                                "--seed", str(case["seed"]), "--out", out], capture_output=True, text=True, env=env, timeout=3600)
+            vp = os.path.join(out, "violation.json")
+            cnt = {}
+            if os.path.exists(os.path.join(out, "counters.json")):
+                cnt = json.load(open(os.path.join(out, "counters.json")))
+            m_ = _re.findall(r"cov: (\d+) ft: (\d+)", r.stderr)
+            stats = {"execs": cnt.get("execs"), "checked": cnt.get("checked"), "discarded": cnt.get("discarded"),
+                             "final_cov_edges": int(m_[-1][0]) if m_ else None, "final_features": int(m_[-1][1]) if m_ else None,
+                             "runs_requested": case["runs"], "libfuzzer_seed": case["seed"]}
+            from vlib import harness as _h
+            os.makedirs(os.path.join(_h.OUT, "evidence"), exist_ok=True)
+            json.dump(stats, open(os.path.join(_h.OUT, "evidence", ".c19_atheris_%s.json" % target), "w"))
+            if os.path.exists(vp):
+                v = json.load(open(vp))
+                raise Violation("atheris campaign: " + v["message"], fuzz_case=v["case"])
+            if r.returncode != 0:
+                raise Violation("atheris campaign on %s ended with exit status %d: %s" % (target, r.returncode, (r.stderr or "")[-400:]))
+        finally:
+            shutil.rmtree(out, ignore_errors=True)
+
+    return Cell("%s/atheris" % target, st.integers(1, 2**30).map(lambda s_: {"runs": runs, "seed": s_}), check, lambda c: True, None,
+                quick=0, thorough=1, shrink=False, shards_thorough=1, weight=1e6)
+
+
+def _atheris_stats():
+    from vlib import harness as _h
+    out = {}
+    for t in ("s2c", "c2s"):
+        f = os.path.join(_h.OUT, "evidence", ".c19_atheris_%s.json" % t)
+        if os.path.exists(f):
+            out[t] = json.load(open(f))
+            os.remove(f)
+    return {"atheris_campaigns": out} if out else {}
+
+
+import os  # noqa: E402
+import json  # noqa: E402
+
+
 def build(tier):
     req_s2c = ["op:" + o for o in ("reuse", "add", "mul", "ipow", "sqrtp", "rpow", "fpow", "sin", "cos", "tan", "atan", "user", "float", "rat", "int")]
     req_c2s = ["op:" + o for o in NUM1 + NUM2 + ["cpow", "if_else", "if_else_zero", "lt", "le", "eq", "ne", "and", "or", "not"]]
@@ -637,6 +692,8 @@ def build(tier):
         Cell("c2s/matrix", c2s_case("mat"), check_c2s, c2s_nontrivial, c2s_classify, quick=150, thorough=4000),
         Cell("c2s/ties_exhaustive", st.sampled_from(sorted(TIE_OPS)).map(lambda o: {"op": o}), check_ties, lambda c: True,
              lambda c: ["op:" + c["op"]], quick=0, thorough=0, shrink=False, examples=[{"op": o} for o in sorted(TIE_OPS)]),
+        atheris_cell("s2c", 20000),
+        atheris_cell("c2s", 20000),
         Cell("c2s/unsupported", st.sampled_from(["constpow", "copysign", "log1p", "hypot"]).map(lambda o: {"op": o}),
              check_c2s_unsupported, lambda c: True, lambda c: [c["op"]], quick=8, thorough=8, shrink=False),
     ]
@@ -653,5 +710,6 @@ def build(tier):
             "fractional powers are generated on bases of the form e^2 + 1 (positive), sqrt likewise",
         ],
         "require_classes": {"s2c/value": req_s2c, "c2s/value": req_c2s},
+        "extra_coverage": _atheris_stats,
         "matchers": {},
     }
